@@ -12,7 +12,7 @@ from . import c16
 
 ID = "C11"
 MODULE = "LasioProofs.Props.C11"
-EXTRA_MODULES = ["LasioProofs.Props.C11File", "LasioProofs.Props.C11Data", "LasioProofs.Props.C01FileDlm", "LasioProofs.Props.C11Refresh", "LasioProofs.Props.C11Typed"]
+EXTRA_MODULES = ["LasioProofs.Props.C11File", "LasioProofs.Props.C11Data", "LasioProofs.Props.C01FileDlm", "LasioProofs.Props.C11Refresh", "LasioProofs.Props.C11Typed", "LasioProofs.Props.C11EndToEnd"]
 RULE = ("inputs x writer option sets x cycles: L0 = read(x); x1 = write(L0); L1 = read(x1); x2 = write(L1); L2 = read(x2); ... up to "
         "k = 4 re-reads.  Inputs: every file of tests/examples (unreadable / unwritable ones counted and skipped), generated documents "
         "(harness/lasdoc.gen_doc: section permutations, custom sections, fillers, DLM variants; c16.gen_text: right / wrong STOP, unit "
@@ -503,6 +503,13 @@ def run(run):
               (["mut:" + w.split(":")[0] for w in what.split(",")[:2]] if mutated else []), pend,
               nontrivial=mutated or cfg != PLAIN)
     c16.flush(run, pend)
+    # the object a read builds, data included (model LasioModel/ReadObjFull.lean, theorems Props/C11EndToEnd.lean): typed sections,
+    # curve data and index_initial of `Ro.readObjFull` vs lasio.read, generated numeric files + the example corpus
+    if run.model is not None:
+        from .. import readobj_stream
+        counts = readobj_stream.run_full_stream(run, run.budget(250, 3000), corpus=True)
+        for k, v in counts.items():
+            run.dist["ro.full:" + k] += v
 
 
 # ------------------------------------------------------------------------------------------------ replay / shrink
